@@ -31,22 +31,39 @@ RULE = ("cases = enumerated (not sampled) cross product of: option --method (abs
         "+ a seeded slice of the product, thorough = the whole product; a case is non-trivial when it left the default path "
         "(any option beyond one IPv4 subnet, or a busy port); distinct = distinct canonical configuration line")
 MANIFEST = dict(
-    level_text=("Machine-checked Lean 4 theorems over a branch-by-branch model of cmdline.main's listen handling and "
-                "client.main up to fw.setup (name-server list, per-family split, default listen addresses, IPv6 enablement, "
-                "user/group lookup, IPv6 pruning, assert_features over the regenerated key list, automatic excludes, both "
-                "port-search loops with used_ports, sanity checks): for every option value, feature table, passwd/group "
-                "database, resolver list and bind oracle the outcome is a fatal message, a deliberately re-raised bind error "
-                "or a plan (C15_total), every plan satisfies predicates (a)-(e) (C15_consistent), an unsupported --group is "
-                "fatal (C15_group_honoured), every documented method name is accepted (C15_methods) and every active family "
-                "has a non-empty subnet list (C15_pf_nonempty). Structural facts of the source the theorems depend on "
-                "(where used_ports is initialised, the assert_features key list, the --method choices, the DNS search guard, "
-                "the order of the bound check) are regenerated from the tree on every run and enter as decide-checked side "
-                "conditions. Tied to the code by an enumerated differential run of the real cmdline.main/client.main."),
+    level_text=("Machine-checked Lean 4 theorems (core only, 25 theorems, 9 examples) over a branch-by-branch model of "
+                "cmdline.main's --method/--listen/--disable-ipv6 handling and client.main up to fw.setup, for every command "
+                "line, feature table, passwd/group database, resolver list and bind oracle: no internal error (C15_total); "
+                "every plan satisfies predicates (a)-(e) (C15_a..e, C15_consistent) and has non-empty per-family lists "
+                "(C15_pf_nonempty). The PORT SEARCH AS A WHOLE, by induction over the candidate range (C15_port_search): the "
+                "redirector search fails only with the IPv6-unavailable fatal message, a re-raised bind error other than "
+                "EADDRINUSE, or EADDRINUSE when every candidate was busy; otherwise it binds on the first candidate on which "
+                "all binds succeed, exactly the families with a listen address get a socket on exactly the reported non-zero "
+                "port, the UDP redirector sits on the same addresses, and the DNS search ends on one non-zero port different "
+                "from both redirector ports or fails the same ways; every socket named in a plan was granted by the bind "
+                "oracle and the DNS listener never shares an address with the UDP redirector (C15_sockets_granted). The "
+                "FEATURE CHECK in one statement over the regenerated key list and tables (C15_features, C15_features_table): "
+                "a plan is handed over only if every feature it asks for - IPv4, IPv6 iff active, UDP iff planned, DNS iff "
+                "name servers are handed over, user/group iff given, whatever numeric id they resolve to - is in the method's "
+                "table; conversely 'Feature K not supported' is said only when K is checked, missing and asked for "
+                "(C15_feature_fatal); C15_group_honoured / C15_user_honoured. FAMILY PRUNING exactly (C15_pruning_exact, "
+                "C15_c): subnets, excludes and name servers handed over are the user's when IPv6 is active and exactly their "
+                "IPv4 part when not, plus only host-wide excludes of addresses actually listened on; name-server texts are "
+                "IPv6 iff they contain a colon (C15_ns_family). Documented method names are accepted (C15_methods). "
+                "Structural facts of the source (where used_ports is initialised, the assert_features key list, the --method "
+                "choices, the DNS search guard, the order of the bound check, family_ip_tuple's test) are regenerated from the "
+                "tree on every run and enter as decide-checked side conditions (C15_side_conditions, C15_method_tables). The "
+                "model is tied to the code by an enumerated differential run of the real cmdline.main/client.main "
+                "(~5,800 configurations quick, ~210,000 thorough) and an independent oracle on the recorded plan."),
     level_note=("Trusted: Lean kernel; axioms propext/Classical.choice/Quot.sound only; the harness fakes (helper process, "
-                "socket layer with a scripted bind oracle, passwd/group, resolv.conf); argparse and getaddrinfo on numeric "
-                "addresses. A bind OSError that client.main re-raises on purpose (`raise last_e` / `raise e`) is classed "
-                "as an environment failure, not as an internal error. Real kernel bind semantics beyond the oracle "
-                "(CPython keeping a failed listener alive through a traceback) are outside."),
+                "socket layer with a scripted bind oracle, passwd/group, resolv.conf files); argparse and getaddrinfo on "
+                "numeric addresses. Decided by correspondence/oracle only, not by theorem: that MultiListener.bind and the "
+                "two loops of the real code are the modelled ones (seeded changes that swallow an IPv4 EADDRINUSE or an IPv6 "
+                "EADDRNOTAVAIL in MultiListener.bind are reported through the oracle with concrete replays); the parsing of "
+                "option values (C16). A bind OSError that client.main re-raises on purpose is classed as an environment "
+                "failure, not an internal error. C15_disable_ipv6_partial: --disable-ipv6 is overridden by an IPv6 --listen "
+                "address (known finding, C15_disable_ipv6_false). CPython keeping a failed listener alive through a "
+                "traceback and the dual-stack listen quirk are outside."),
     technique="Lean 4 proof (case analysis + induction over the port search) + enumerated differential correspondence with the real client.main",
 )
 DRIVER_TARGETS = ['SshuttleModel.Code.ClientPlan', 'SshuttleModel.Spec.PlanConsistent']
